@@ -2003,7 +2003,9 @@ class MultiValuedValue(Value):
                     return can_assign
                 bounds_maps.append(can_assign)
             if not bounds_maps:
-                return CanAssignError(f"Cannot assign {other} to {self}")
+                # An empty union (possibly wrapped in Annotated) is Never, which is
+                # assignable to everything.
+                return {}
             return unify_bounds_maps(bounds_maps)
         elif isinstance(other, AnyValue) and not ctx.should_exclude_any():
             ctx.record_any_used()
